@@ -77,6 +77,18 @@ var (
 )
 
 func verifNewWorld(controlling, lite bool, nLocal, nRemote int) *verifWorld {
+	w := verifNewWorldCreds(controlling, lite, verifLocalUfrag, verifLocalPwd, verifRemoteUfrag, verifRemotePwd)
+	for i := 0; i < nLocal; i++ {
+		w.addLocal(verifLocalIPs[i], 1000+i)
+	}
+	for i := 0; i < nRemote; i++ {
+		w.addRemote(verifRemoteIPs[i], 2000+i, CandidateTypeHost)
+	}
+	return w
+}
+
+// verifNewWorldCreds: a bare agent with the given credentials and no candidates.
+func verifNewWorldCreds(controlling, lite bool, lu, lp, ru, rp string) *verifWorld {
 	w := &verifWorld{}
 	a := &Agent{
 		lite:                   lite,
@@ -87,10 +99,10 @@ func verifNewWorld(controlling, lite bool, nLocal, nRemote int) *verifWorld {
 		remoteCandidates:       make(map[NetworkType][]Candidate),
 		checklist:              []*CandidatePair{},
 		pairsByID:              make(map[uint64]*CandidatePair),
-		localUfrag:             verifLocalUfrag,
-		localPwd:               verifLocalPwd,
-		remoteUfrag:            verifRemoteUfrag,
-		remotePwd:              verifRemotePwd,
+		localUfrag:             lu,
+		localPwd:               lp,
+		remoteUfrag:            ru,
+		remotePwd:              rp,
 		log:                    verifNopLogger{},
 		buf:                    packetio.NewBuffer(),
 		nominationAttribute:    DefaultNominationAttribute,
@@ -113,12 +125,6 @@ func verifNewWorld(controlling, lite bool, nLocal, nRemote int) *verifWorld {
 	a.isControlling.Store(controlling)
 	a.setSelector()
 	w.a = a
-	for i := 0; i < nLocal; i++ {
-		w.addLocal(verifLocalIPs[i], 1000+i)
-	}
-	for i := 0; i < nRemote; i++ {
-		w.addRemote(verifRemoteIPs[i], 2000+i, CandidateTypeHost)
-	}
 	return w
 }
 
